@@ -463,3 +463,62 @@ N("extent named once and reused", ["C03"],
     "            extent = length + lenLen + 1\n            if len(self._buffer) >= extent:\n                chunk = self._buffer[:extent]\n                self._processPacket(chunk)\n                self._buffer = self._buffer[extent:]")])
 N("dead return removed", ["C03"],
   [(BASE, "                # We still haven't got all of the remaining length field\n                if lenLen < len(self._buffer) and self._buffer[lenLen] & 0x80:\n                    return\n", "")])
+
+# ---------------------------------------------------------------- C01 / C02
+B("encode16Int >> 7", ["C01"], [(PDU, "    encoded    = bytearray(2)\n    encoded[0] = value >> 8\n", "    encoded    = bytearray(2)\n    encoded[0] = value >> 7\n")], {"C01": ["L1"]})
+B("decode16Int * 255", ["C01"], [(PDU, "    return encoded[0]*256 + encoded[1]", "    return encoded[0]*255 + encoded[1]")], {"C01": ["L1"]})
+B("decodeLength & 0x3F", ["C01"], [(PDU, "        value += (i & 0x7F) * multiplier", "        value += (i & 0x3F) * multiplier")], {"C01": ["L1"]})
+B("encodeLength without continuation bit", ["C01"], [(PDU, "        if value > 0:\n            digit |= 128\n", "")], {"C01": ["L1", "ANALYSIS-ERROR"]})
+B("encodeLength continuation test value > 1", ["C01"], [(PDU, "        if value > 0:\n            digit |= 128", "        if value > 1:\n            digit |= 128")], {"C01": ["L1"]})
+B("decodeLength overwrites instead of accumulating", ["C01"], [(PDU, "        value += (i & 0x7F) * multiplier", "        value = (i & 0x7F) * multiplier")], {"C01": ["L1"]})
+B("encodeString prefix from len(string)", ["C01", "C02"], [(PDU, "    l = len(encoded)-2\n", "    l = len(string)\n")], {"C01": ["L5"], "C02": ["S5"]})
+B("decodeString body slice off by one", ["C01"], [(PDU, "    return (encoded[2:2+length].decode('utf-8'), encoded[2+length:])", "    return (encoded[2:1+length].decode('utf-8'), encoded[2+length:])")], {"C01": ["L1"]})
+B("decodeString little endian", ["C01"], [(PDU, "    length = encoded[0]*256 + encoded[1]\n    return (encoded[2:2+length]", "    length = encoded[1]*256 + encoded[0]\n    return (encoded[2:2+length]")], {"C01": ["L1"]})
+B("password prefix from len(self.password) (D15 re-introduced)", ["C01", "C02"],
+  [(PDU, "            password = bytearray(self.password, encoding='utf-8')\n            payload.extend(encode16Int(len(password)))\n            payload.extend(password)",
+    "            payload.extend(encode16Int(len(self.password)))\n            payload.extend(bytearray(self.password, encoding='ascii', errors='ignore'))")], {"C01": ["L5"], "C02": ["S5"]})
+B("PUBLISH.decode retain mask 0x02", ["C01"], [(PDU, "        self.retain = (packet[0] & 0x01) == 0x01", "        self.retain = (packet[0] & 0x02) == 0x02")], {"C01": ["L4"]})
+B("PUBLISH.encode qos << 2", ["C01", "C02"], [(PDU, "            header[0] = 0x30 | self.retain | (self.qos << 1) | (self.dup << 3)", "            header[0] = 0x30 | self.retain | (self.qos << 2) | (self.dup << 3)")], {"C01": ["L4"], "C02": ["S1"]})
+B("CONNECT.decode will topic/message swapped", ["C01"],
+  [(PDU, "            self.willTopic,  packet_remaining  = decodeString(packet_remaining)\n            self.willMessage, packet_remaining = decodeString(packet_remaining)",
+    "            self.willMessage,  packet_remaining  = decodeString(packet_remaining)\n            self.willTopic, packet_remaining = decodeString(packet_remaining)")], {"C01": ["L3"]})
+B("CONNECT.decode without willRetain", ["C01"], [(PDU, "            self.willRetain = willRetain\n", "")], {"C01": ["L2"]})
+B("CONNECT.encode user/password flag masks swapped", ["C01", "C02"],
+  [(PDU, "        if self.username is not None:\n            flags |= 0x80\n        if self.password is not None:\n            flags |= 0x40", "        if self.username is not None:\n            flags |= 0x40\n        if self.password is not None:\n            flags |= 0x80")],
+  {"C01": ["L3"], "C02": ["S3"]})
+B("SUBSCRIBE.encode iterating set(self.topics)", ["C01"], [(PDU, "        header[0] = 0x82        # packet with QoS=1\n        for topic in self.topics:", "        header[0] = 0x82        # packet with QoS=1\n        for topic in set(self.topics):")], {"C01": ["L6"]})
+B("PUBLISH.decode payload offset ignores the identifier", ["C01"], [(PDU, "            self.payload =  packet_remaining[topicLen+4:]", "            self.payload =  packet_remaining[topicLen+2:]")], {"C01": ["L3"]})
+B("SUBACK.decode failure mask 0x40", ["C01"], [(PDU, "        self.granted = [ (byte & 0x7F, byte & 0x80 == 0x80) ", "        self.granted = [ (byte & 0x7F, byte & 0x40 == 0x40) ")], {"C01": ["L4"]})
+B("SUBSCRIBE.decode advances two bytes per QoS", ["C01"], [(PDU, "            self.topics.append((topic,qos))\n            packet_remaining = packet_remaining[1:]", "            self.topics.append((topic,qos))\n            packet_remaining = packet_remaining[2:]")], {"C01": ["L3"]})
+B("CONNECT.decode keepalive read before the flags are skipped", ["C01"], [(PDU, "        packet_remaining = packet_remaining[2:]\n        self.keepalive = decode16Int(packet_remaining)", "        packet_remaining = packet_remaining[1:]\n        self.keepalive = decode16Int(packet_remaining)")], {"C01": ["L3"]})
+B("CONNACK.decode session bit 0x02", ["C01"], [(PDU, "        self.session = (packet_remaining[0] & 0x01) == 0x01 ", "        self.session = (packet_remaining[0] & 0x02) == 0x02 ")], {"C01": ["L4", "L3"]})
+B("decoder header skip with mask 0x40", ["C01"], [(PDU, "        self.encoded = packet\n        lenLen = 1\n        while packet[lenLen] & 0x80:\n            lenLen += 1\n        packet_remaining = packet[lenLen+1:]\n        self.msgId   = decode16Int(packet_remaining)\n\n# ------------------------------------------------------------------------------\n\n__all__",
+                                                "        self.encoded = packet\n        lenLen = 1\n        while packet[lenLen] & 0x40:\n            lenLen += 1\n        packet_remaining = packet[lenLen+1:]\n        self.msgId   = decode16Int(packet_remaining)\n\n# ------------------------------------------------------------------------------\n\n__all__")], {"C01": ["L1"]})
+N("0x80 written as 128 in decodeLength", ["C01", "C02"], [(PDU, "        multiplier *= 0x80\n        if (i & 0x80) != 0x80:", "        multiplier *= 128\n        if (i & 128) != 128:")])
+N("encode16Int via divmod", ["C01", "C02"], [(PDU, "    encoded    = bytearray(2)\n    encoded[0] = value >> 8\n    encoded[1] = value & 0xFF\n    return encoded\n\ndef decode16Int", "    encoded    = bytearray(2)\n    hi, lo = divmod(value, 256)\n    encoded[0] = hi\n    encoded[1] = lo\n    return encoded\n\ndef decode16Int")])
+N("PUBLISH.encode topic hoisted out of the if", ["C01", "C02"],
+  [(PDU, "        if self.qos:\n            header[0] = 0x30 | self.retain | (self.qos << 1) | (self.dup << 3)\n            varHeader.extend(encodeString(self.topic)) # topic name\n            varHeader.extend(encode16Int(self.msgId))  # msgId should not be None\n        else:\n            header[0] = 0x30 | self.retain\n            varHeader.extend(encodeString(self.topic)) # topic name\n",
+    "        varHeader.extend(encodeString(self.topic)) # topic name\n        if self.qos:\n            header[0] = 0x30 | self.retain | (self.qos << 1) | (self.dup << 3)\n            varHeader.extend(encode16Int(self.msgId))  # msgId should not be None\n        else:\n            header[0] = 0x30 | self.retain\n")])
+N("retain test written with bool()", ["C01", "C02"], [(PDU, "        self.retain = (packet[0] & 0x01) == 0x01", "        self.retain = (packet[0] & 0x01) != 0")])
+N("decoder local renamed", ["C01", "C02"], [(PDU, "        self.topic, _  = decodeString(packet_remaining)\n        topicLen       = decode16Int(packet_remaining)\n        if self.qos:\n            self.msgId = decode16Int( packet_remaining[topicLen+2:topicLen+4] )\n            self.payload =  packet_remaining[topicLen+4:]\n        else:\n            self.msgId = None\n            self.payload = packet_remaining[topicLen+2:] # payload is a bytearray",
+    "        self.topic, _  = decodeString(packet_remaining)\n        tl       = decode16Int(packet_remaining)\n        if self.qos:\n            self.msgId = decode16Int( packet_remaining[tl+2:tl+4] )\n            self.payload =  packet_remaining[tl+4:]\n        else:\n            self.msgId = None\n            self.payload = packet_remaining[tl+2:] # payload is a bytearray")])
+B("SUBSCRIBE.encode header 0x80", ["C02"], [(PDU, "        header[0] = 0x82        # packet with QoS=1\n        for topic in self.topics:\n            payload.extend(encodeString(topic[0]))", "        header[0] = 0x80        # packet with QoS=1\n        for topic in self.topics:\n            payload.extend(encodeString(topic[0]))")], {"C02": ["S1"]})
+B("PUBCOMP.encode 0x72 (D7 re-introduced)", ["C02"], [(PDU, "        header[0] = 0x70 ", "        header[0] = 0x72 ")], {"C02": ["S1"]})
+B("UNSUBACK remaining length off by one", ["C02"],
+  [(PDU, "        header[0] = 0xB0 \n        header.extend(encodeLength(len(varHeader)))", "        header[0] = 0xB0 \n        header.extend(encodeLength(len(varHeader)+1))")], {"C02": ["S2"]})
+B("CONNECT remaining length without the payload", ["C02"],
+  [(PDU, "        # ---- Build the packet once all lengths are known ----\n        header.extend(encodeLength(len(varHeader) + len(payload)))", "        # ---- Build the packet once all lengths are known ----\n        header.extend(encodeLength(len(varHeader)))")], {"C02": ["S2"]})
+B("string limit 65536", ["C02"], [(PDU, "    if(l > 65535):", "    if(l > 65536):")], {"C02": ["S7"]})
+B("StringValueError no longer a ValueError", ["C02"], [("src/mqtt/error.py", "class StringValueError(ValueError):", "class StringValueError(Exception):")], {"C02": ["S7"]})
+B("v311 level 5", ["C02"], [("src/mqtt/__init__.py", "v311 = {'level': 4, 'tag': 'MQTT'}", "v311 = {'level': 5, 'tag': 'MQTT'}")], {"C02": ["S4"]})
+B("_retryPublish dup << 2 on the stored packet", ["C02"], [(PS, "        request.encoded[0] |=  (dup << 3)   # set the dup flag\n        request.dup = dup", "        request.encoded[0] |=  (dup << 2)   # set the dup flag\n        request.dup = dup")], {"C02": ["S6"]})
+B("CONNECT will QoS at bit 4", ["C02"], [(PDU, "            flags |= 0x04 | (self.willRetain << 5) | (self.willQoS << 3)", "            flags |= 0x04 | (self.willRetain << 5) | (self.willQoS << 4)")], {"C02": ["S3"]})
+B("CONNECT keepalive before the flags", ["C02"],
+  [(PDU, "        varHeader.append(flags)\n        varHeader.extend(encode16Int(self.keepalive))", "        varHeader.extend(encode16Int(self.keepalive))\n        varHeader.append(flags)")], {"C02": ["S3"]})
+B("PUBLISH identifier written for every QoS", ["C02"],
+  [(PDU, "            header[0] = 0x30 | self.retain\n            varHeader.extend(encodeString(self.topic)) # topic name\n", "            header[0] = 0x30 | self.retain\n            varHeader.extend(encodeString(self.topic)) # topic name\n            varHeader.extend(encode16Int(0))\n")], {"C02": ["S3"]})
+B("payload size guard 268435456", ["C02"], [(PDU, "        if totalLen > 268435455:", "        if totalLen > 268435456:")], {"C02": ["S7"]})
+B("PayloadTypeError no longer a TypeError", ["C02"], [("src/mqtt/error.py", "class PayloadTypeError(TypeError):", "class PayloadTypeError(Exception):")], {"C02": ["S7"]})
+B("DISCONNECT with a body byte", ["C02"], [(PDU, "        header    = bytearray(2)\n        header[0] = 0xE0", "        header    = bytearray(3)\n        header[0] = 0xE0")], {"C02": ["S2"]})
+B("payload extended after the length was taken", ["C02"],
+  [(PDU, "        header.extend(encodeLength(totalLen))\n        header.extend(varHeader)", "        payload.append(0)\n        header.extend(encodeLength(totalLen))\n        header.extend(varHeader)")], {"C02": ["S2"]})
